@@ -3,9 +3,18 @@
               FITS = 1 when the byte length of the frame the library wrote is within the limit
               in force (the THeader frame length is the library's), else 0
            (sstream sbin|sstruct gzTAB ((xIDS MSG) ...))
+           (scross sbin|sstruct gzTAB ((xIDS MSG) ...) (EV ...))
+              ONE protocol object packing outgoing messages while it unpacks the given inbound
+              frames, under a forced interleaving; EV = spb | (sw nN) | spe | sub | (sr nN) | sue:
+              the events in the order in which they happened on the implementation (a Pack
+              begins, a Write of N bytes went through, Pack returned; the same for Unpack/Read)
    observations
            pack:   (serr | (sok sown)   snone | (sok FIELDS8) | sfail)
            stream: ((sok FIELDS8) ...) sok|sfail
+           cross:  ((sok FIELDS8) ...) sok|sfail ((sp nSIZE) | (su nSIZE) ...)
+              the inbound frames as decoded, and the Size() reported by every Pack / Unpack in
+              the order in which they returned; the model runs the counter machine
+              (Model/ThriftFrame.v xrun) with the protocol's reset sites over the events
            FIELDS8 = (zSEQ xMT xMETHOD xSTATUSENC ((xK xV)...) xCODEC xBODY xIDS)
    The section variables th_frame / th_read are instantiated with a length-prefixed
    serialisation of the record (any instance of the framing contract serves: the model's
@@ -88,6 +97,36 @@ Fixpoint items_of (l : list val) : option (list (list byte * msg)) :=
   | _ => None
   end.
 
+Fixpoint xevs_of (l : list val) : option (list xev) :=
+  match l with
+  | [] => Some []
+  | v :: r =>
+      let e :=
+        match v with
+        | VS k =>
+            if bytes_eqb k (str "pb") then Some XPackBegin
+            else if bytes_eqb k (str "pe") then Some XPackEnd
+            else if bytes_eqb k (str "ub") then Some XUnpackBegin
+            else if bytes_eqb k (str "ue") then Some XUnpackEnd
+            else None
+        | VL [VS k; VN n] =>
+            if bytes_eqb k (str "w") then Some (XWrite n)
+            else if bytes_eqb k (str "r") then Some (XRead n)
+            else None
+        | _ => None
+        end in
+      match e, xevs_of r with
+      | Some e, Some t => Some (e :: t)
+      | _, _ => None
+      end
+  end.
+
+Definition xobs_val (o : xobs) : val :=
+  match o with
+  | OPacked n => VL [vsym "p"; VN n]
+  | OUnpacked n => VL [vsym "u"; VN n]
+  end.
+
 Definition run (inp : val) : option val :=
   match inp with
   | VL [VS mode; VS kind; VN pfits; VN ufits; VB ids; VL gz; mv] =>
@@ -118,6 +157,20 @@ Definition run (inp : val) : option val :=
             let '(vs, e) := decode_all (S (length s)) (unpack1 bin reg big) s in
             Some (VL [VL vs; match e with Ok _ => vsym "ok" | _ => vsym "fail" end])
         | _, _, _ => None
+        end
+      else None
+  | VL [VS mode; VS kind; VL gz; VL items; VL evs] =>
+      if bytes_eqb mode (str "cross") then
+        match kind_of kind, Corr.C12.pairs_of gz, items_of items, xevs_of evs with
+        | Some bin, Some t, Some l, Some xs =>
+            let reg := Corr.C12.registry_of t in
+            let frames := map (fun '(ids, m) => match pack1 bin reg big ids m with Some f => f | None => [] end) l in
+            let s := concat frames in
+            let '(vs, e) := decode_all (S (length s)) (unpack1 bin reg big) s in
+            let sites := if bin then bin_sites else struct_sites in
+            Some (VL [VL vs; match e with Ok _ => vsym "ok" | _ => vsym "fail" end;
+                      VL (map xobs_val (xrun sites (mkCtr 0 0) xs))])
+        | _, _, _, _ => None
         end
       else None
   | _ => None
